@@ -310,3 +310,14 @@ Lemma kernel_ridge_positive varE varU : 0 < varE -> 0 < varU -> 0 < k_ridge varE
 Proof.
   intros HE HU. rewrite k_ridge_model. unfold Qdiv. apply Qmult_lt_0_compat; [exact HE|]. now apply Qinv_lt_0_compat.
 Qed.
+
+(** ** sessions: what a model object answers depends on its current coefficient arrays only *)
+Lemma model_copy_id g : model_copy g = g.
+Proof. destruct g; reflexivity. Qed.
+Lemma session_state_only {A} (obs : gmodel -> A) g (a b c : qmat) :
+  obs (set_ua (set_ua g a) b) = obs (set_ua g b) /\ obs (set_beta (set_beta g a) b) = obs (set_beta g b) /\
+  obs (set_umisc (set_umisc g a) b) = obs (set_umisc g b) /\ obs (set_ud (set_ud g a) b) = obs (set_ud g b) /\
+  obs (set_beta (set_ua g a) c) = obs (set_ua (set_beta g c) a) /\ obs (set_ud (set_umisc g a) c) = obs (set_umisc (set_ud g c) a) /\
+  obs (model_copy g) = obs g /\ obs (set_ua (model_copy g) a) = obs (set_ua g a) /\
+  (set_ua (set_beta (set_umisc (set_ud g (g_ud g)) (g_umisc g)) (g_beta g)) (g_ua g) = g).
+Proof. destruct g; repeat split; reflexivity. Qed.
